@@ -19,6 +19,10 @@ import numpy as np
 import scipy.sparse as sp
 from hypothesis import strategies as st
 
+import warnings
+
+import partitura.performance as PF
+import partitura.score as SC
 import partitura.utils.music as M
 from pbt.core import Outcome, SubCheck, SutRaised, call
 from pbt.ref import c13_pianoroll as R
@@ -28,7 +32,7 @@ ENGINES = ["hypothesis", "independent reference rasteriser (Fraction arithmetic)
 ASSUMPTIONS = [
     "rounding rule taken from the code: origin t0 = smallest onset (remove_silence) or min(0, smallest onset); first frame = nearest(time_div*(onset-t0)); length = max(1, nearest(time_div*duration)) frames; generated times lie on a grid k/(time_div*m), m in {1,3,5,15}, so no rounding is an exact .5 tie",
     "time_div='auto' means 8 frames per beat/quarter/second and 1 per div/tick; time_unit='auto' is only generated when the array has a single time unit or the documented default (beat / sec)",
-    "columns without end_time = last offset frame (before note separation) plus time_margin*time_div on both sides; with end_time and time_margin == 0: ceil(time_div*(end_time-t0)); the column count for end_time together with a non-zero time_margin is not demanded (only totality, enough columns and cell content)",
+    "columns without end_time = last offset frame (before note separation) plus time_margin*time_div on both sides; with end_time: ceil(time_div*(end_time-t0)) plus time_margin*time_div on both sides",
     "piano_range together with pitch_margin > -1 is only checked for totality and row-order independence (documentation contradictory)",
     "end_time == last offset exactly is only generated when all times are dyadic (float arithmetic exact); otherwise end_time exceeds the last offset by a non-integer number of frames (odd denominator)",
     "in onset_only mode the offset column of the index rows may be onset+1 or the note's full extent",
@@ -54,13 +58,21 @@ def _flag(draw, p_true=0.5):
 def _case(draw, tier, pc=False):
     big = tier == "thorough"
     family = draw(st.sampled_from(["score", "perf"]))
+    # what is handed over: the structured array, a view of it (every second row of a larger array / other
+    # field order), or an object of the documented types built from the same notes
+    container = draw(st.sampled_from(["array", "array", "array", "strided-view", "other-field-order", "object", "object"]))
+    as_object = container == "object"
     fam_units = SCORE_UNITS if family == "score" else PERF_UNITS
     mask = draw(st.integers(1, 2 ** len(fam_units) - 1))
+    if as_object and family == "perf":
+        mask |= 1  # a performed part is rasterised in seconds
     units = [u for i, u in enumerate(fam_units) if (mask >> i) & 1]
     default = "beat" if family == "score" else "sec"
     choices = list(units)
     if len(units) == 1 or default in units:
         choices.append("auto")
+    if as_object and family == "perf":
+        choices = ["sec", "auto"]
     time_unit = draw(st.sampled_from(choices))
     sel = (default if default in units else units[0]) if time_unit == "auto" else time_unit
     time_div = draw(st.sampled_from(["auto", "auto", 1, 2, 3, 4, 5, 8, 10, 12, 16]))
@@ -75,18 +87,19 @@ def _case(draw, tier, pc=False):
     pitch = st.one_of(st.sampled_from(pool), st.sampled_from(pool), st.sampled_from(EDGE_PITCHES), st.integers(0, 127))
     has_vel = _flag(draw, 0.7)
     has_ch = _flag(draw, 0.4)
-    negative = _flag(draw, 0.2)
+    negative = _flag(draw, 0.28) and not as_object  # performed notes and score parts start at or after 0
+    p_zero = 0.0 if (as_object and family == "score") else 0.1  # a score part has no zero-length notes
     span = 80 if big else 40
 
     def times(u):
         if u in INT_UNITS:
             on = draw(st.integers(0, max(3, span // td)))
-            du = 0 if _flag(draw, 0.1) else draw(st.integers(1, max(2, 12 // td)))
+            du = 0 if _flag(draw, p_zero) else draw(st.integers(1, max(2, 12 // td)))
             if negative:
                 on -= 2
         else:
             on = draw(st.integers(0, span * m))
-            du = 0 if _flag(draw, 0.1) else draw(st.one_of(st.integers(1, 12 * m), st.integers(1, 3).map(lambda k: k * m)))
+            du = 0 if _flag(draw, p_zero) else draw(st.one_of(st.integers(1, 12 * m), st.integers(1, 3).map(lambda k: k * m)))
             if negative:
                 on -= 7 * m + 1
         return [on, du]
@@ -110,7 +123,7 @@ def _case(draw, tier, pc=False):
             notes[b]["p"] = notes[a]["p"]
             notes[b]["t"] = [list(x) for x in notes[a]["t"]]
             if _flag(draw, 0.5):
-                notes[b]["t"][units.index(sel)][1] = draw(st.integers(0, 6))
+                notes[b]["t"][units.index(sel)][1] = draw(st.integers(0 if p_zero else 1, 6))
     if _flag(draw, 0.2):
         k = units.index(sel)
         notes.sort(key=lambda x: x["t"][k][0])
@@ -153,6 +166,12 @@ def _case(draw, tier, pc=False):
         "binary": _flag(draw, 0.3),
         "return_idxs": _flag(draw, 0.6),
         "end": end,
+        # options that hold their documented default are left out of the call
+        "omit_defaults": _flag(draw, 0.5),
+        # what is handed over: the structured array, a view of it (every second row of a larger array /
+        # other field order), or an object of the documented types built from the same notes
+        "container": container,
+        "object_kind": draw(st.integers(0, 2)),
     }
     if pc:
         spec["normalize"] = _flag(draw, 0.5)
@@ -184,6 +203,121 @@ def _selected(spec):
 
 def _value(unit, k, td, m):
     return Fraction(k) if unit in INT_UNITS else Fraction(k, td * m)
+
+
+DEFAULTS = dict(
+    time_unit="auto",
+    time_div="auto",
+    onset_only=False,
+    note_separation=False,
+    pitch_margin=-1,
+    time_margin=0,
+    return_idxs=False,
+    piano_range=False,
+    remove_drums=True,
+    remove_silence=True,
+    end_time=None,
+    binary=False,
+    normalize=True,
+)
+
+
+def _omit_defaults(o, spec, kw):
+    """Drop the keyword arguments that carry their documented default (when the case asks for it)."""
+    if not spec.get("omit_defaults"):
+        return kw
+    out = {}
+    for k, v in kw.items():
+        if v is DEFAULTS[k] or (type(v) is type(DEFAULTS[k]) and v == DEFAULTS[k]):
+            o.cls("default-omitted:" + k)
+        else:
+            out[k] = v
+    o.cls("defaults-omitted")
+    return out
+
+
+PC_SPELL = [("C", 0), ("C", 1), ("D", 0), ("E", -1), ("E", 0), ("F", 0), ("F", 1), ("G", 0), ("A", -1), ("A", 0), ("B", -1), ("B", 0)]
+OBJECT_KINDS = {"perf": ["ppart", "performance", "performance-of-two-parts"], "score": ["part", "score", "list-of-parts"]}
+
+
+def build_object(spec, order):
+    """An object of the documented input types holding the notes of the case in `order`, together with the
+    effective spec (the columns its note array has) and the time_unit to pass; None when the notes cannot be
+    put into such an object (negative onsets, zero durations in a score part, tick/second unit not derivable)."""
+    sel, td = _selected(spec)
+    m = spec["m"]
+    k = spec["units"].index(sel)
+    notes = [spec["notes"][i] for i in order]
+    if any(n["t"][k][0] < 0 for n in notes):
+        return None
+    kind = OBJECT_KINDS[spec["family"]][spec.get("object_kind", 0)]
+    if spec["family"] == "perf":
+        if sel != "sec":
+            return None
+        dicts = []
+        for i, n in zip(order, notes):
+            on = _value(sel, n["t"][k][0], td, m)
+            du = _value(sel, n["t"][k][1], td, m)
+            dicts.append(dict(id="n%d" % i, midi_pitch=n["p"], note_on=float(on), note_off=float(on + du), velocity=n["v"], channel=n["c"], track=0))
+        if kind == "ppart":
+            obj = PF.PerformedPart(dicts)
+        elif kind == "performance":
+            obj = PF.Performance(PF.PerformedPart(dicts))
+        else:
+            h = (len(dicts) + 1) // 2
+            parts = [PF.PerformedPart(dicts[:h], id="A")] + ([PF.PerformedPart(dicts[h:], id="B")] if dicts[h:] else [])
+            obj = PF.Performance(parts)
+        eff = dict(spec, units=["sec"], has_vel=True, has_ch=True, notes=[dict(n, t=[n["t"][k]]) for n in spec["notes"]])
+        return obj, eff, kind
+    if any(n["t"][k][1] <= 0 for n in notes):
+        return None
+    # a part without time signature: a beat is a quarter; quarter = td*m divs puts the grid k/(td*m) on whole divs
+    qd = 4 if sel == "div" else td * m
+    def one_part(pid, items):
+        part = SC.Part(pid, quarter_duration=qd)
+        for i, n in items:
+            step, alter = PC_SPELL[n["p"] % 12]
+            on, du = n["t"][k]
+            part.add(SC.Note(step=step, octave=n["p"] // 12 - 1, alter=alter, id="n%d" % i, voice=1 + i % 3), on, on + du)
+        return part
+    items = list(zip(order, notes))
+    if kind == "part":
+        obj = one_part("P0", items)
+    else:
+        h = (len(items) + 1) // 2
+        parts = [one_part("P0", items[:h])] + ([one_part("P1", items[h:])] if items[h:] else [])
+        obj = SC.Score(parts) if kind == "score" else parts
+    eff = dict(spec, units=[sel], has_vel=False, has_ch=False, notes=[dict(n, t=[n["t"][k]]) for n in spec["notes"]])
+    if spec["time_unit"] == "auto" and sel == "div":
+        eff["time_unit"] = "div"  # "auto" on a part is the beat
+    return obj, eff, kind
+
+
+def object_order(obj):
+    """Original note numbers in the row order of the object's own note array (the 'input order' of an object)."""
+    with warnings.catch_warnings():
+        warnings.simplefilter("ignore")
+        na = call(M.ensure_notearray, obj)
+    return [int(str(x).split("n")[-1]) for x in na["id"]]
+
+
+def present(arr, spec):
+    """The array as a strided view of a larger one, or with its fields in another order."""
+    how = spec.get("container", "array")
+    if how == "strided-view":
+        big = np.zeros(2 * len(arr), dtype=arr.dtype)
+        big[::2] = arr
+        if len(arr):
+            big[1::2] = arr[::-1]
+            big["pitch"][1::2] = (big["pitch"][1::2] + 7) % 128
+        return big[::2]
+    if how == "other-field-order":
+        names = list(arr.dtype.names)[::-1]
+        out = np.zeros(len(arr), dtype=[(nm, arr.dtype[nm]) for nm in names])
+        for nm in names:
+            out[nm] = arr[nm]
+        return out
+    return arr
 
 
 def build_array(spec, order):
@@ -260,7 +394,9 @@ class Layout(object):
             e = self.t0 + Fraction(x) / td
             self.end_time = int(e) if e.denominator == 1 else float(e)
             self.x = x
-            self.ncols = -((-x.numerator) // x.denominator) if spec["time_margin"] == 0 else None
+            # end_time is the end of the last frame; the margin comes before and after it (stated by the docs;
+            # demanded also with a margin since repair 36edd8e)
+            self.ncols = 2 * self.lead + -((-x.numerator) // x.denominator)
             self.min_cols = self.lead + self.maxoff
         pitches = [x[0] for x in self.notes]
         pm = spec["pitch_margin"]
@@ -388,14 +524,43 @@ def _unsorted_velocity_model(lay, spec, arr, order, binary):
     return grid
 
 
+def _input(o, spec, order):
+    """What is handed to the function for this case and row order: (effective spec, effective row order,
+    plain array for the known-defect model, the argument itself)."""
+    how = spec.get("container", "array")
+    if how == "object":
+        built = build_object(spec, order)
+        if built is not None:
+            obj, eff, kind = built
+            o.cls("input:" + kind)
+            o.cls("input:object")
+            rows = object_order(obj)
+            if sorted(rows) != sorted(order):
+                # the object's note array is only consulted for the row order; it has to hold every note once
+                o.add("object-input-notes-lost-or-duplicated", input=kind, got=rows, expected=sorted(order))
+                rows = list(order)
+            return eff, rows, build_array(eff, rows), obj
+        o.cls("object-not-applicable(array given)")
+    arr = build_array(spec, order)
+    given = present(arr, spec)
+    o.cls("input:" + (how if how != "object" else "array"))
+    return spec, order, arr, given
+
+
 def _run_raster(o, spec, order, order_name):
     """Call compute_pianoroll on the rows in `order`; compare with the reference. Returns dense roll or None."""
+    spec, order, arr, given = _input(o, spec, order)
     lay = Layout(spec, order, spec["remove_drums"])
-    arr = build_array(spec, order)
     kw = _options(spec, lay)
     kw.update(pitch_margin=spec["pitch_margin"], piano_range=spec["piano_range"], remove_drums=spec["remove_drums"])
+    kw = _omit_defaults(o, spec, kw)
+    before = given.copy() if isinstance(given, np.ndarray) else None
     try:
-        res = call(M.compute_pianoroll, arr, **kw)
+        with warnings.catch_warnings():
+            warnings.simplefilter("ignore")
+            res = call(M.compute_pianoroll, given, **kw)
+        if before is not None and not (before.dtype == given.dtype and before.tobytes() == np.ascontiguousarray(given).tobytes()):
+            o.add("input-array-modified", order=order_name)
     except SutRaised as e:
         if spec["end"] is not None and spec["time_margin"] > 0 and "end_time" in e.text:
             # a valid end_time (>= last offset) is rejected because of the margin
@@ -448,8 +613,6 @@ def oracle_raster(spec):
         return o
     if not lay0.rows_judged:
         o.excluded.append("piano_range-with-pitch_margin")
-    if spec["end"] is not None and spec["time_margin"] > 0:
-        o.excluded.append("column-count-for-end_time-with-time_margin")
     got0, _ = _run_raster(o, spec, given, "given")
     perm = list(spec["perm"])
     if perm != given:
@@ -480,12 +643,15 @@ def _pc_expected(grid, ncols, spec):
 
 
 def _run_pc(o, spec, order, order_name):
+    spec, order, arr, given = _input(o, spec, order)
     lay = Layout(spec, order, True)
-    arr = build_array(spec, order)
     kw = _options(spec, lay)
     kw["normalize"] = spec["normalize"]
+    kw = _omit_defaults(o, spec, kw)
     try:
-        res = call(M.compute_pitch_class_pianoroll, arr, **kw)
+        with warnings.catch_warnings():
+            warnings.simplefilter("ignore")
+            res = call(M.compute_pitch_class_pianoroll, given, **kw)
     except SutRaised as e:
         if spec["end"] is not None and spec["time_margin"] > 0 and "end_time" in e.text:
             o.add("end-time-with-margin-rejected", order=order_name, text=e.text[:160], end_time=lay.end_time, time_margin=spec["time_margin"])
@@ -547,8 +713,6 @@ def oracle_pc(spec):
     if lay0.tie:
         o.excluded.append("rounding-tie")
         return o
-    if spec["end"] is not None and spec["time_margin"] > 0:
-        o.excluded.append("column-count-for-end_time-with-time_margin")
     _run_pc(o, spec, given, "given")
     perm = list(spec["perm"])
     if perm != given:
@@ -597,7 +761,11 @@ def _decode_case(draw, tier):
         )
         # later entries overwrite earlier ones: arbitrary integer roll with touching runs
         spec["cells"] = [[p, j, k, v] for (p, j, k, v) in cells]
-    spec["roll_dtype"] = draw(st.sampled_from(["int64", "int32", "float64", "uint8"]))
+    spec["roll_dtype"] = draw(st.sampled_from(["int64", "int32", "float64", "uint8", "bool"]))
+    # time_div and time_unit left out of the call (documented defaults 8 and "sec")
+    if _flag(draw, 0.2):
+        spec["use_defaults"] = True
+        spec["td"], spec["unit"] = 8, "sec"
     return spec
 
 
@@ -642,6 +810,11 @@ def oracle_decode(spec):
     o = Outcome()
     rows, ncols, td, unit = spec["rows"], spec["ncols"], spec["td"], spec["unit"]
     roll, lo = _decode_roll(spec)
+    if spec["roll_dtype"] == "bool" and spec["container"] != "sut":
+        # a thresholded roll: every active cell counts as velocity 1
+        roll = [[1 if x else 0 for x in row] for row in roll]
+        o.cls("boolean-roll")
+    o.cls("time_div-and-unit-omitted", bool(spec.get("use_defaults")))
     exp = R.decode(roll)  # (first col, row, length, value)
     o.cls("kind:" + spec["kind"])
     o.cls("rows:%d" % rows)
@@ -652,7 +825,7 @@ def oracle_decode(spec):
     )
     o.cls("touching-runs-of-different-value", touching)
     o.nontrivial = len(exp) >= 2
-    dense = np.array(roll, dtype=spec["roll_dtype"])
+    dense = np.array(roll, dtype="int64" if (spec["roll_dtype"] == "bool" and spec["container"] == "sut") else spec["roll_dtype"])
     if spec["container"] == "sut":
         # the roll produced by compute_pianoroll itself from the grid-aligned notes
         notes = list(spec["notes"])
@@ -685,7 +858,10 @@ def oracle_decode(spec):
         container = sp.csr_matrix(dense)
     else:
         container = dense
-    na = call(M.pianoroll_to_notearray, container, td, unit)
+    if spec.get("use_defaults"):
+        na = call(M.pianoroll_to_notearray, container)
+    else:
+        na = call(M.pianoroll_to_notearray, container, td, unit)
     if not isinstance(na, np.ndarray) or na.dtype.names is None:
         o.add("decode-result-type-wrong", got=type(na).__name__)
         return o
@@ -768,7 +944,7 @@ SUBCHECKS = [
         oracle_raster,
         strategy=strat_raster,
         budget={"quick": 500, "thorough": 10000},
-        rule="structured note arrays (score units beat/quarter/div, performance units sec/tick, 1-3 unit column pairs, f4/f8, with/without velocity, channel, id columns, rows in random order and in a second permutation) x all options; times on k/(time_div*m); compared cell by cell with the reference roll, shape, index rows; non-trivial = unsorted rows with >= 2 distinct velocities, or two notes of one pitch sharing a cell",
+        rule="note arrays (also as strided view / other field order) or the documented objects PerformedPart, Performance (one or two parts), Part, Score, list of parts built from the same notes; options at their default value left out of the call in half of the cases; input array unchanged afterwards; structured note arrays (score units beat/quarter/div, performance units sec/tick, 1-3 unit column pairs, f4/f8, with/without velocity, channel, id columns, rows in random order and in a second permutation) x all options; times on k/(time_div*m); compared cell by cell with the reference roll, shape, index rows; non-trivial = unsorted rows with >= 2 distinct velocities, or two notes of one pitch sharing a cell",
         known=KNOWN,
         max_buckets=4,
         floors={
@@ -790,6 +966,20 @@ SUBCHECKS = [
             "zero-duration": 0.1,
             "remove_drums-with-drum-rows": 0.05,
             "drum-rows-kept": 0.03,
+            "defaults-omitted": 0.3,
+            "default-omitted:remove_silence": 0.1,
+            "default-omitted:remove_drums": 0.1,
+            "default-omitted:note_separation": 0.15,
+            "default-omitted:time_unit": 0.08,
+            "default-omitted:time_div": 0.03,
+            "input:object": 0.15,
+            "input:ppart": 0.02,
+            "input:performance-of-two-parts": 0.02,
+            "input:part": 0.02,
+            "input:score": 0.015,
+            "input:list-of-parts": 0.015,
+            "input:strided-view": 0.06,
+            "input:other-field-order": 0.06,
         },
     ),
     SubCheck(
@@ -800,16 +990,16 @@ SUBCHECKS = [
         rule="same arrays and time options; compute_pitch_class_pianoroll == octave fold (sum over octaves) of the reference 128-row roll, binarised / normalised per frame on request, index rows with pitch class; non-trivial = as raster, or two octaves of one pitch class in one frame",
         known=KNOWN,
         max_buckets=4,
-        floors={"normalize": 0.2, "binary": 0.1, "octaves-folded-onto-one-cell": 0.02},
+        floors={"normalize": 0.2, "binary": 0.1, "octaves-folded-onto-one-cell": 0.02, "default-omitted:normalize": 0.1, "input:object": 0.1},
     ),
     SubCheck(
         "decode",
         oracle_decode,
         strategy=strat_decode,
         budget={"quick": 200, "thorough": 4000},
-        rule="integer rolls 128 x n and 88 x n (dense int/float/uint8, csc, csr, or the matrix returned by compute_pianoroll) built from grid-aligned non-touching notes or from arbitrary overwritten runs (touching runs of different value); pianoroll_to_notearray == run-length decoding, and compute_pianoroll of the decoded array reproduces the roll; non-trivial = at least two decoded notes",
+        rule="integer rolls 128 x n and 88 x n (dense int/float/uint8/bool, time_div and time_unit also omitted, csc, csr, or the matrix returned by compute_pianoroll) built from grid-aligned non-touching notes or from arbitrary overwritten runs (touching runs of different value); pianoroll_to_notearray == run-length decoding, and compute_pianoroll of the decoded array reproduces the roll; non-trivial = at least two decoded notes",
         known=KNOWN,
         max_buckets=4,
-        floors={"kind:cells": 0.1, "rows:88": 0.2, "container:sut": 0.02},
+        floors={"kind:cells": 0.1, "rows:88": 0.2, "container:sut": 0.02, "time_div-and-unit-omitted": 0.1, "boolean-roll": 0.08},
     ),
 ]
